@@ -16,6 +16,7 @@
 (* frames, sizes and physical addresses are words (lib/Word.tla); flag bits *)
 (* are the ascending tuple of the bit numbers set in the hardware entry     *)
 (* outside the frame field (0 = present, 1 = RW, 2 = user, 9 = CoW, 63 = NX)*)
+(* A request whose flags lack bit 0 must leave the page NOT mapped.          *)
 (* A projection entry is <<>> (walk hits a non-present entry), <<f, fl>>    *)
 (* (leaf entry present) or <<-1>> (walk runs into a frame that is no table).*)
 (*                                                                          *)
@@ -49,6 +50,9 @@ PageOfFrame(f) == [l \in 1..4 |-> W!ToNat(W!LowBits(W!ShiftR(f, IB * (4 - l)), I
 FrameIsPage(f) == W!IsZero(W!ShiftR(f, 4 * IB))
 Nth(w, i) == W!Add(w, W!FromNat(i - 1))
 Need(size) == LET r == W!RoundUpC(size, PB) IN [n |-> W!ShiftR(r.v, PB), ovf |-> r.c = 1]
+
+\* what the hardware shows for a leaf written with frame f and flag bits fl: a leaf without the present bit translates nothing
+Leaf(f, fl) == IF 0 \in Range(fl) THEN <<f, fl>> ELSE Unm
 
 S0 == [U |-> <<>>, temp |-> <<>>, trans |-> <<>>, active |-> 0]
 
@@ -119,7 +123,7 @@ MonPtInit(s, e) ==
 
 MonMap(s, e) ==
   LET i == IdxOf(s.U, e.pg)
-      T == IF i = 0 THEN <<>> ELSE (i :> <<e.f, e.fl>>)
+      T == IF i = 0 THEN <<>> ELSE (i :> Leaf(e.f, e.fl))
   IN [s |-> Adopt(s, e),
       cs |-> << <<"HARNESS", i = 0 \/ ~ViaOK(s, e), "map: page outside the universe or wrong address space">>,
                 <<"C04", ~e.afail /\ e.res \notin {"ok", "panic"}, <<"map failed without an allocation failure", e.res>> >> >>
@@ -147,7 +151,7 @@ MonMapTemp(s, e) ==
 \* n consecutive pages from p0 to consecutive frames from f
 RegionT(s, p0, f, fl, n) ==
   LET idx(k) == IdxOf(s.U, PgAdd(p0, k - 1)) IN
-  [i \in {idx(k) : k \in 1..n} |-> LET k == CHOOSE k \in 1..n : idx(k) = i IN <<Nth(f, k), fl>>]
+  [i \in {idx(k) : k \in 1..n} |-> LET k == CHOOSE k \in 1..n : idx(k) = i IN Leaf(Nth(f, k), fl)]
 RegionInU(s, p0, n) == \A k \in 1..n : IdxOf(s.U, PgAdd(p0, k - 1)) # 0
 
 MonIdentity(s, e) ==
